@@ -7,7 +7,7 @@ import numpy as np
 from . import core, probe
 from .contracts_tt import _is_tt, check_returned
 from .dense import dense_cores, dense_b_cores, tt_consistent
-from .monitors_transform import product_tensor, parse, LAST_HOCUR
+from .monitors_transform import product_tensor, parse, LAST_HOCUR, pristine
 from .monitors_tdmd import match_multiset
 
 P = 'C18'
@@ -58,7 +58,7 @@ class Amuset(probe.Contract):
         if len(lams) != len(xs) or len(tens) != len(xs):
             return
         with probe.oracle():
-            factors = [np.array([[float(f(Z[:, j])) for j in range(m)] for f in fl]) for fl in bl]
+            factors = [np.array([[float(f(Z[:, j])) for j in range(m)] for f in fl]) for fl in pristine(bl)]
         T = product_tensor(factors)
         Psi = T.reshape(N, m)
         # is the decomposition of Psi exact (no effective truncation)?
